@@ -19,13 +19,16 @@ LEVEL = {
             "behaviour, decided by the oracle on the implementation.", "§7 C15"),
     "C16": ("Lean theorems: IUPAC letter semantics (kernel-checked against the table regenerated from the code), "
             "matcher sound+complete w.r.t. the declarative Fits, leftmost start in range, one-turn bound, group text = "
-            "matched text for every span; SEARCH/LM correspondence against Python re + oracle.", "§7 C16"),
+            "matched text for every span, the reported fit is the unique fit of highest backtracking priority; "
+            "SEARCH/LM/FITS correspondence against Python re + oracle.", "§7 C16"),
 }
 LEVEL.update({
     "C01": ("Lean theorems: whenever a product is returned its sequence is exactly the chain's retained fragments in "
             "chain order followed by the vector's (length = sum), the chain being the linked path of the overhang "
             "graph; the live structure() of generic/part classes over every supported enzyme equals the model's closed "
-            "forms (kernel-checked regenerated table). ASM/STRUCT correspondence + documented-formula oracle.", "§7 C01"),
+            "forms (kernel-checked regenerated table); conversely a well-formed assembly does return a product (completeness); "
+            "canonical modules / vectors of every geometry are typed with the documented overhangs and target at every "
+            "rotation. ASM/STRUCT correspondence + documented-formula oracle + object-lifecycle probes.", "§7 C01"),
     "C03": ("Lean theorems on the overhang-graph model, generic in the overhang type: success iff vector overhangs "
             "differ, no shared / reverse-complementary start overhang and a simple chain to the upstream overhang "
             "(sound + complete), error classes with precedence and stall overhang, each module used once, leftover = "
@@ -36,23 +39,28 @@ LEVEL.update({
             "in forked fresh interpreters.", "§7 C06"),
     "C20": ("Lean theorems: mapping laws of association lists, CombinedRegistry = first-wins union (keys once, union, "
             "lookup = first member holding the key); the five embedded registries exhaustively via a kernel-checked "
-            "regenerated table. PARTIAL: archive / directory I/O decided by the oracle on real archives and mem:// "
-            "directories.", "§7 C20"),
+            "regenerated table; the resistance a plasmid is filed under comes from the cassette-tag table (known "
+            "antibiotics, kernel-checked). PARTIAL: archive / directory I/O decided by the oracle on real archives and "
+            "mem:// directories.", "§7 C20"),
 })
 LEVEL.update({
     "C02": ("Lean theorems: typing is a function of the matched one-turn window only; under a unique structure start "
-            "every rotation yields the same verdict, overhangs, target and placeholder (view invariance). EVAL/ASM "
+            "every rotation yields the same verdict, overhangs, target and placeholder (view invariance); assemblies of "
+            "rotated inputs return the same product (role congruence through assemble). EVAL/ASM/FITS "
             "correspondence at every critical rotation + metamorphic oracle incl. registry plasmids.", "§7 C02"),
     "C04": ("Lean theorems: for cut-aligned structures (kernel-checked for all 85 kit classes on the regenerated table) "
             "reported overhangs / target / placeholder are the texts at the cut positions of the matched window; "
-            "placeholder ++ target tile the plasmid. EVAL correspondence + string-search oracle.", "§7 C04"),
+            "placeholder ++ target tile the plasmid; an accepted record has no further valid cut inside its target "
+            "(no_inner_cut). EVAL correspondence + string-search oracle.", "§7 C04"),
     "C05": ("Lean theorems: a signature-typed structure is the generic one with groups 1/3 narrowed; acceptance = generic "
             "acceptance with signature-matching overhangs on the same window; characterize = first accepting candidate, "
             "failure iff none; kit and enzyme tables kernel-checked. EVAL/CHAR correspondence + oracle.", "§7 C05"),
     "C07": ("Lean theorems: for every vector, module list, citation state, fault position and outcome the inputs come back "
             "exactly as they were (restore o snapshot undoes dereference); second call and retry equal a first call. ASM "
             "correspondence with deep snapshots over call sequences.", "§7 C07"),
-    "C08": ("Lean theorems on feature transport through rotation, slicing and concatenation (denotation modulo n). ASM "
+    "C08": ("Lean theorems on feature transport through rotation, slicing and concatenation (denotation modulo n), and "
+            "end to end over assemble: citations aside, the product record equals the concatenation of the targets of the "
+            "supplied records. ASM "
             "correspondence with annotated inputs + positional oracle.", "§7 C08"),
     "C09": ("Lean theorems: product header (id, name, comment ids), generated source features tile the product (offsets = "
             "prefix sums, total = length), each fragment occurs verbatim in a rotation of its plasmid, the product is that "
@@ -62,11 +70,14 @@ LEVEL.update({
             "product citation [j] points to the reference its source denoted; inputs unchanged. ASM correspondence + "
             "oracle.", "§7 C10"),
     "C11": ("Lean theorems: next-level site layout of the kit vector structures (kernel-checked on the regenerated table) "
-            "and fit of the next-level generic module pattern on the product text. EVAL/ASM correspondence + two-level "
-            "oracle for the 8 triples.", "§7 C11"),
+            "and fit of the next-level generic module pattern on the product text; the YTK pair (the product carries "
+            "the next level's sites inside its own target). EVAL/ASM correspondence + two-level oracle for the 8 "
+            "triples.", "§7 C11"),
     "C12": ("Lean theorems: the generic structures are their own reverse complement with groups 1 and 3 exchanged (all "
-            "geometries), Fits is preserved by reverse complement. EVAL/RC/ASM correspondence + metamorphic oracle.",
-            "§7 C12"),
+            "geometries), Fits is preserved by reverse complement, the illegal-site screen counts the same cuts on both "
+            "strands, a generic class reports the mirror image on the other strand, and assembling the reverse "
+            "complements yields (up to rotation and letter case) the reverse complement of the product. "
+            "EVAL/RC/ASM/FITS correspondence + metamorphic oracle.", "§7 C12"),
     "C17": ("Lean theorems on the error taxonomy: is_valid() false iff the match fails with one of the two "
             "invalid-sequence errors, accessors then raise that error, an assembly ends with a product or a documented "
             "error. PARTIAL: 'never an internal exception' is about the Python runtime: decided by the malformed-stream "
@@ -77,7 +88,7 @@ LEVEL.update({
             "oracle.", "§7 C18"),
     "C19": ("Lean theorem: replacing modules by valid modules with the same two overhangs succeeds again along the same "
             "chain; both products are the chain's fragments + the same vector fragment, differing only in the replaced "
-            "segments. ASM correspondence + segment-wise oracle.", "§7 C19"),
+            "segments; the same for the vector (role congruence). ASM correspondence + segment-wise oracle.", "§7 C19"),
 })
 NOTE = ("Trusted: Lean 4.33 kernel (+ propext, Classical.choice, Quot.sound), the hand-written model as far as the "
         "regenerated tables and the correspondence check show on each run, harness/extract.py, harness/impl.py, "
